@@ -20,6 +20,8 @@ def meta_from_lines(lines):
             cap = int(t[1])
         elif t[0] == "savepath":
             cap = t[1]
+        elif t[0] in ("savenoseek", "saveeof"):
+            cap = t[0][4:]
     return {"cap": cap, "full_len": None, "full": None}
 
 
@@ -35,6 +37,8 @@ def oracle(case, impl):
     ret = int(sv[-1].split()[2])
     if cap == "bad":
         return ["unopenable: save() to a path that cannot be opened returned true"] if ret else []
+    if cap in ("noseek", "eof"):
+        return ["stream-state: save() returned true on a stream that %s" % ("refuses every seek" if cap == "noseek" else "was not good() on entry (eofbit)")] if ret else []
     if cap == "dir":
         return ["unopenable: save() to a name that is an existing directory returned true"] if ret else []
     if cap == "full":
@@ -72,6 +76,8 @@ def generate(rng, tier):
         cases.append(Case("bad_" + name, lines + ["savepath bad"], {"cap": "bad", "base": name}))
         cases.append(Case("dev_" + name, lines + ["savepath full"], {"cap": "full", "base": name}))
         cases.append(Case("dir_" + name, lines + ["savepath dir"], {"cap": "dir", "base": name}))
+        cases.append(Case("noseek_" + name, lines + ["savenoseek"], {"cap": "noseek", "base": name}))
+        cases.append(Case("eof_" + name, lines + ["saveeof"], {"cap": "eof", "base": name}))
     cases_prog = dict(progs)
     for c in cases:
         c.meta["lines"] = cases_prog[c.meta["base"]]
